@@ -71,7 +71,7 @@ theorem qinv_sendOffer (s : Stack) (i : Nat) (r : Dest) (b : Bool) (hi : QInv s)
   · exact hi
   · split
     · exact hi
-    · exact qinv_queueSend _ _ _ hi
+    · exact qinv_queueSend _ _ _ (qinv_of_qpi (qpi_logOffer _ _ _) hi)
 
 theorem qinv_frame {s s' : Stack} (h : qpi s' = qpi s) (hi : QInv s) : QInv s' := qinv_of_qpi h hi
 
@@ -130,8 +130,8 @@ theorem qinv_instStop (s : Stack) (i : Nat) (hi : QInv s) : QInv (s.instStop i) 
     · simp only []
       apply qinv_frame (qpi_subsStopAll _ _)
       split
-      · exact qinv_sendOffer _ _ _ _ (qinv_frame ((qpi_setInst _ _ _).trans (qpi_cancelTask _ _)) hi)
-      · exact qinv_frame ((qpi_setInst _ _ _).trans (qpi_cancelTask _ _)) hi
+      · exact qinv_sendOffer _ _ _ _ (qinv_frame ((qpi_setInst _ _ _).trans ((qpi_cancelTask _ _).trans (qpi_logOffer _ _ _))) hi)
+      · exact qinv_frame ((qpi_setInst _ _ _).trans ((qpi_cancelTask _ _).trans (qpi_logOffer _ _ _))) hi
 
 theorem qinv_instHandleSubscribe (s : Stack) (i : Nat) (e : SDEntry) (a : Addr) (hi : QInv s) :
     QInv (s.instHandleSubscribe i e a).1 := by
